@@ -269,3 +269,72 @@ def plain_strings(sx, B):
     """Engine B (CrossHair, z3 string theory): real _parse_plain on a one-letter sequence of arbitrary characters: sequences over
     the alphabet give exactly the translated names (with 5'/3' suffixes), resids and linear edges; any other character is rejected."""
     raise NotImplementedError("run by pverif.chx")
+
+
+MACRO_FF = """[ moleculetype ]
+TRI 1
+[ atoms ]
+1 TA 1 RA a1 1 0.0 36.0
+2 TB 2 RB b1 2 0.0 36.0
+3 TA 3 RA a1 3 0.0 36.0
+4 TC 4 RC c1 4 0.0 36.0
+[ bonds ]
+a1 b1 1 0.3 100
+2 3 1 0.3 100
+2 4 1 0.3 100
+"""
+MACRO_ITP = """[ moleculetype ]
+TRI 1
+[ atoms ]
+1 TA 1 RA a1 1 0.0 36.0
+2 TB 2 RB b1 2 0.0 36.0
+3 TA 3 RA a1 3 0.0 36.0
+4 TC 4 RC c1 4 0.0 36.0
+[ bonds ]
+1 2 1 0.3 100
+2 3 1 0.3 100
+2 4 1 0.3 100
+"""
+
+
+@condition("C12.genseq_from_file",
+           anchors=["polyply.src.gen_seq:gen_seq", "polyply.src.gen_seq:MacroFile.gen_graph", "polyply.src.gen_seq:generate_seq_graph"],
+           rejects=(), selector_only=True, must_cover=["read back", "file macro twice"],
+           outside=["macro files with more than one molecule"],
+           bounds={"quick": dict(), "thorough": dict()})
+def genseq_from_file(sx, B):
+    """Real gen_seq with a macro taken from a molecule file (a branched four-residue molecule in .itp syntax) combined with a string
+    macro in a solver-chosen sequence and connect record: the .json read back by the real reader has the residues of every macro
+    instance in order (names from the molecule's residues), the branched connectivity of the file macro, the connect edges, and
+    consecutive residue ids."""
+    seq = sx.sel("sequence", [["F"], ["F", "S"], ["S", "F"], ["F", "F"], ["S", "F", "S"]])
+    connect = sx.sel("connect", [False, True]) if len(seq) > 1 else False
+    with _Tmp() as d:
+        (d / "tri.itp").write_text(MACRO_ITP)
+        names, edges, offs = [], set(), []
+        for tag in seq:
+            off = len(names)
+            if tag == "F":
+                names += ["RA", "RB", "RA", "RC"]
+                edges |= {frozenset((off, off + 1)), frozenset((off + 1, off + 2)), frozenset((off + 1, off + 3))}
+                offs.append((off, 4))
+            else:
+                names += ["PEO", "PEO"]
+                edges.add(frozenset((off, off + 1)))
+                offs.append((off, 2))
+        connects = []
+        if connect:
+            a = sx.sel("from_residue", list(range(offs[0][1])))
+            connects.append("0:1:%d-0" % a)
+            edges.add(frozenset((offs[0][0] + a, offs[1][0])))
+        if seq.count("F") == 2:
+            sx.cover("file macro twice")
+        out = d / "seq.json"
+        gen_seq_mod.gen_seq("x", out, seq, inpath=[d / "tri.itp"], from_file=["F:TRI"], macro_strings=["S:2:1:PEO-1.0"], connects=connects)
+        m = MetaMolecule.from_sequence_file(None, out, "x")
+    sx.cover("read back")
+    got = [m.nodes[k].get("resname") for k in sorted(m.nodes)]
+    sx.claim(got == names, "residues of every macro instance in sequence order", lambda: "%r: %r expected %r" % (seq, got, names))
+    sx.claim(all(m.nodes[k]["resid"] == k + 1 for k in m.nodes) and list(m.nodes) == list(range(len(names))), "residues numbered consecutively from 1 in input order")
+    gote = set(frozenset(e) for e in m.edges)
+    sx.claim(gote == edges, "connectivity of the file macro and the connect records", lambda: "%r: %r expected %r" % (seq, sorted(map(sorted, gote)), sorted(map(sorted, edges))))
